@@ -52,6 +52,31 @@
 //     mutable.  A cache written on a read path is therefore accepted only when what it stores is immutable
 //     by this definition (no mutating methods).  Not covered: values that are mutated by assignments
 //     from outside their own methods; caches hidden behind function-typed variables
+//
+// Shared objects registered once and used by every reader (added for seeded/C18-w2-2, C18-w2-3):
+//   - roots also: the exported read methods (name Read* Open* Get* Is* Iterate* Eval* Find* Load*, first
+//     parameter *bbolt.Tx) of the types in boltz/indexes.go, link_collection.go, link_collection_rc.go,
+//     query_symbols.go, external_symbol.go and store_crud.go - indexes, link collections and symbols
+//     are created at configuration time and then read by all read transactions
+//   - call through a function-typed struct field (x.f(...)): resolves to every function literal (or local
+//     variable holding one) that the repository stores in field f of that struct type, by composite
+//     literal or assignment ("stored literal").  Calls of function-typed parameters and locals are still
+//     not followed
+//   - captured variable (location "<enclosing function>$<variable>"): a stored literal outlives the call
+//     of the function that created it; the variables of that function which it mentions are then shared
+//     by all its invocations.  Assignment / inc-dec rooted at such a variable (buf[0] = 1), copy into it,
+//     &v handed on, a mutating method called on it, or handing it to a function outside the repository
+//     whose name says it fills its argument (Put* Read* Encode* Decode* Append* Copy* Fill* Write*) is an
+//     unsynchronised write, every other mention a read.  Not counted when the enclosing function is itself
+//     reachable from the helper (then every invocation has created its own literal and variables)
+//   - spare capacity of a shared slice (location "<field or variable>[spare capacity]", write): a call
+//     append(S, ...) whose first argument S is (a slice expression of) a struct field, an element of a
+//     field, a package-level variable, a captured variable, or a local variable initialised from one of
+//     these, and whose result is not assigned back to S.  Whether append copies depends on cap(S), which
+//     is decided elsewhere (for the path slices of indexes and symbols: by the depth of the store's base
+//     path); when it does not copy it writes into the array every other reader of S sees.  A full slice
+//     expression S[a:b:b] is accepted (forces the copy).  Not flagged: fields of types that only
+//     functions reachable from the roots construct (per-call objects: cursors, scanners)
 package main
 
 import (
@@ -76,6 +101,13 @@ type access struct {
 	write bool
 	sync  bool
 	via   string
+	encl  *funcInfo // set for captured-variable accesses of a stored literal: the function that created it
+}
+
+// fieldKey: a function-typed field of a repository struct type
+type fieldKey struct {
+	tn    *types.TypeName
+	field string
 }
 
 type funcInfo struct {
@@ -92,6 +124,9 @@ type funcInfo struct {
 	mutatesRecv bool
 	recvCallees map[*types.Func]bool     // methods called on the function's own receiver
 	constructs  map[*types.TypeName]bool // named types of the composite literals in the body
+	fieldCalls  map[fieldKey]bool        // calls through function-typed struct fields
+	encl        *funcInfo                // stored literal: the function whose body contains it
+	lit         *ast.FuncLit             // stored literal: the literal itself
 }
 
 var (
@@ -104,6 +139,10 @@ var (
 	sharedTypes = map[*types.TypeName]bool{}     // receiver types of the root methods
 	mutMethods  = map[*types.TypeName][]string{} // repository struct types -> their receiver-mutating methods
 	repoNamed   []*types.TypeName                // repository named types that have methods
+
+	litsByField = map[fieldKey][]*funcInfo{} // stored literals, by the field they are stored in
+	perCallOnly = map[*types.TypeName]bool{} // struct types constructed only by functions reachable from the roots
+	fillerNames = []string{"Put", "Read", "Encode", "Decode", "Append", "Copy", "Fill", "Write"}
 )
 
 var externalMutators = map[string]bool{"Put": true, "Set": true, "Store": true, "Delete": true, "Clear": true, "Remove": true,
@@ -574,6 +613,186 @@ func analyse(fi *funcInfo) {
 		return true
 	})
 
+	// stored literal: the variables of the enclosing function it mentions
+	captured := func(id *ast.Ident) types.Object {
+		if fi.encl == nil || id == nil {
+			return nil
+		}
+		v, ok := info.Uses[id].(*types.Var)
+		if !ok || v.IsField() || v.Pkg() == nil || v.Parent() == v.Pkg().Scope() {
+			return nil
+		}
+		if v.Pos() < fi.encl.decl.Pos() || v.Pos() >= fi.encl.decl.End() {
+			return nil
+		}
+		if v.Pos() >= fi.lit.Pos() && v.Pos() < fi.lit.End() {
+			return nil
+		}
+		return v
+	}
+	capLoc := func(o types.Object) string { return fi.encl.name + "$" + o.Name() }
+	capWrites := map[*ast.Ident]string{} // identifier of a captured variable -> how it is written
+	if fi.encl != nil {
+		mark := func(e ast.Expr, how string) {
+			if id, _ := w.rootIdent(e); id != nil && captured(id) != nil {
+				capWrites[id] = how
+			}
+		}
+		ast.Inspect(body, func(n ast.Node) bool {
+			switch x := n.(type) {
+			case *ast.AssignStmt:
+				for _, l := range x.Lhs {
+					mark(l, "assigns to")
+				}
+			case *ast.IncDecStmt:
+				mark(x.X, "assigns to")
+			case *ast.RangeStmt:
+				if x.Tok == token.ASSIGN {
+					if x.Key != nil {
+						mark(x.Key, "assigns to")
+					}
+					if x.Value != nil {
+						mark(x.Value, "assigns to")
+					}
+				}
+			case *ast.UnaryExpr:
+				if x.Op == token.AND {
+					mark(x.X, "hands on the address of")
+				}
+			case *ast.CallExpr:
+				switch f := x.Fun.(type) {
+				case *ast.Ident:
+					if _, isBuiltin := info.Uses[f].(*types.Builtin); isBuiltin && f.Name == "copy" && len(x.Args) > 0 {
+						mark(x.Args[0], "copies into")
+					}
+				case *ast.SelectorExpr:
+					var fn *types.Func
+					if sel, ok := info.Selections[f]; ok {
+						fn, _ = sel.Obj().(*types.Func)
+						if fn != nil && sel.Kind() == types.MethodVal {
+							mutates := false
+							if cf := funcs[fn.Origin()]; cf != nil {
+								mutates = cf.mutatesRecv
+							} else if fn.Pkg() != nil && !repoPkgs[fn.Pkg()] {
+								mutates = externalMutators[fn.Name()] || isFiller(fn.Name()) || fn.Name() == "Reset" || fn.Name() == "Truncate" || fn.Name() == "Grow"
+							}
+							if tv, ok := info.Types[f.X]; ok && isSyncType(tv.Type) {
+								mutates = false
+							}
+							if mutates {
+								mark(f.X, "calls the mutating method "+fn.Name()+" on")
+							}
+						}
+					} else {
+						fn, _ = info.Uses[f.Sel].(*types.Func)
+					}
+					// a function outside the repository that fills the slice / buffer it is given
+					if fn != nil && fn.Pkg() != nil && !repoPkgs[fn.Pkg()] && isFiller(fn.Name()) {
+						for _, a := range x.Args {
+							if tv, ok := info.Types[a]; ok {
+								switch tv.Type.Underlying().(type) {
+								case *types.Slice, *types.Pointer, *types.Map:
+									mark(a, "lets "+fn.Name()+" fill")
+								}
+							}
+						}
+					}
+				}
+			}
+			return true
+		})
+	}
+	// local variables initialised from a shared slice:  p := x.f   /   p := pkgVar
+	sliceAlias := map[types.Object]ast.Expr{}
+	ast.Inspect(body, func(n ast.Node) bool {
+		if as, ok := n.(*ast.AssignStmt); ok && as.Tok == token.DEFINE && len(as.Lhs) == len(as.Rhs) {
+			for i, l := range as.Lhs {
+				if lid, ok := l.(*ast.Ident); ok {
+					if tv, ok := info.Types[as.Rhs[i]]; ok {
+						if _, isSlice := tv.Type.Underlying().(*types.Slice); isSlice {
+							if o := info.Defs[lid]; o != nil {
+								sliceAlias[o] = as.Rhs[i]
+							}
+						}
+					}
+				}
+			}
+		}
+		return true
+	})
+	// reassigned aliases are no aliases
+	ast.Inspect(body, func(n ast.Node) bool {
+		if as, ok := n.(*ast.AssignStmt); ok && as.Tok != token.DEFINE {
+			for _, l := range as.Lhs {
+				if lid, ok := l.(*ast.Ident); ok {
+					delete(sliceAlias, info.Uses[lid])
+				}
+			}
+		}
+		return true
+	})
+	// sharedSlice: the location behind the first argument of an append, "" when it is not a shared slice
+	var sharedSlice func(e ast.Expr, depth int) string
+	sharedSlice = func(e ast.Expr, depth int) string {
+		for {
+			switch x := e.(type) {
+			case *ast.ParenExpr:
+				e = x.X
+				continue
+			case *ast.SliceExpr:
+				if x.Slice3 && x.Max != nil && x.High != nil && types.ExprString(x.Max) == types.ExprString(x.High) {
+					return "" // S[a:b:b]: append must copy
+				}
+				e = x.X
+				continue
+			case *ast.IndexExpr:
+				e = x.X
+				continue
+			}
+			break
+		}
+		switch x := e.(type) {
+		case *ast.SelectorExpr:
+			if sel, ok := info.Selections[x]; ok && sel.Kind() == types.FieldVal {
+				n := namedOf(sel.Recv())
+				if n == nil || n.Obj().Pkg() == nil || !repoPkgs[n.Obj().Pkg()] {
+					return ""
+				}
+				if perCallOnly[n.Origin().Obj()] {
+					return ""
+				}
+				return n.Obj().Pkg().Name() + "." + n.Obj().Name() + "." + x.Sel.Name
+			}
+			if v := isRepoVar(info.Uses[x.Sel]); v != nil {
+				return locName(v)
+			}
+		case *ast.Ident:
+			o := info.Uses[x]
+			if v := isRepoVar(o); v != nil {
+				return locName(v)
+			}
+			if c := captured(x); c != nil {
+				return capLoc(c)
+			}
+			if init, ok := sliceAlias[o]; ok && depth < 3 {
+				return sharedSlice(init, depth+1)
+			}
+		}
+		return ""
+	}
+	stripSlices := func(e ast.Expr) ast.Expr {
+		for {
+			switch x := e.(type) {
+			case *ast.ParenExpr:
+				e = x.X
+			case *ast.SliceExpr:
+				e = x.X
+			default:
+				return e
+			}
+		}
+	}
+
 	// pass 2: accesses and call edges
 	var inOnce []*ast.FuncLit
 	var visit func(n ast.Node) bool
@@ -676,8 +895,31 @@ func analyse(fi *funcInfo) {
 				if fn, ok := info.Uses[f].(*types.Func); ok {
 					fi.callees[fn.Origin()] = true
 				}
+				// append on a shared slice whose result does not go back to the slice itself
+				if _, isBuiltin := info.Uses[f].(*types.Builtin); isBuiltin && f.Name == "append" && len(x.Args) >= 2 {
+					if loc := sharedSlice(x.Args[0], 0); loc != "" {
+						self := false
+						if as, ok := w.parents[x].(*ast.AssignStmt); ok && len(as.Lhs) == len(as.Rhs) {
+							for i, r := range as.Rhs {
+								if r == x && types.ExprString(stripSlices(as.Lhs[i])) == types.ExprString(stripSlices(x.Args[0])) {
+									self = true
+								}
+							}
+						}
+						if !self {
+							recordLoc(loc+"[spare capacity]", x.Pos(), true, false,
+								fi.name+" appends to the shared slice "+types.ExprString(x.Args[0])+" without copying it")
+						}
+					}
+				}
 			case *ast.SelectorExpr:
 				if sel, ok := info.Selections[f]; ok {
+					if sel.Kind() == types.FieldVal {
+						// call through a function-typed field: the literals stored in that field
+						if n := namedOf(sel.Recv()); n != nil {
+							fi.fieldCalls[fieldKey{n.Origin().Obj(), f.Sel.Name}] = true
+						}
+					}
 					if fn, ok := sel.Obj().(*types.Func); ok {
 						if types.IsInterface(sel.Recv()) {
 							fi.ifaceCalls[fn.Name()] = fn.Type().(*types.Signature).Params().Len()
@@ -737,10 +979,142 @@ func analyse(fi *funcInfo) {
 				record(x, w.writes[x], false)
 				handOut(x, x)
 			}
+			if c := captured(x); c != nil {
+				how, wr := capWrites[x]
+				s := isSyncType(c.Type()) || w.guarded(x.Pos()) || len(inOnce) > 0
+				via := fi.name
+				if wr {
+					via = fi.name + " " + how + " " + c.Name() + ", a variable of the function that created the literal"
+				}
+				fi.accesses = append(fi.accesses, access{loc: capLoc(c), write: wr, sync: s, via: via, encl: fi.encl})
+			}
 		}
 		return true
 	}
 	ast.Inspect(body, visit)
+}
+
+func isFiller(name string) bool {
+	for _, p := range fillerNames {
+		if strings.HasPrefix(name, p) {
+			return true
+		}
+	}
+	return false
+}
+
+// collectStoredLiterals: the function literals of fi's body that end up in a function-typed field of a
+// repository struct (composite literal element or assignment; directly or through a local variable)
+func collectStoredLiterals(fi *funcInfo) []*funcInfo {
+	info := fi.pkg.TypesInfo
+	body := fi.decl.Body
+	localLits := map[types.Object][]*ast.FuncLit{}
+	ast.Inspect(body, func(n ast.Node) bool {
+		switch x := n.(type) {
+		case *ast.AssignStmt:
+			if len(x.Lhs) == len(x.Rhs) {
+				for i, l := range x.Lhs {
+					lit, ok := x.Rhs[i].(*ast.FuncLit)
+					lid, ok2 := l.(*ast.Ident)
+					if ok && ok2 {
+						o := info.Defs[lid]
+						if o == nil {
+							o = info.Uses[lid]
+						}
+						if o != nil {
+							localLits[o] = append(localLits[o], lit)
+						}
+					}
+				}
+			}
+		case *ast.ValueSpec:
+			for i, nm := range x.Names {
+				if i < len(x.Values) {
+					if lit, ok := x.Values[i].(*ast.FuncLit); ok {
+						if o := info.Defs[nm]; o != nil {
+							localLits[o] = append(localLits[o], lit)
+						}
+					}
+				}
+			}
+		}
+		return true
+	})
+	byLit := map[*ast.FuncLit]*funcInfo{}
+	var out []*funcInfo
+	store := func(tn *types.TypeName, field string, v ast.Expr) {
+		if tn == nil || tn.Pkg() == nil || !repoPkgs[tn.Pkg()] {
+			return
+		}
+		var lits []*ast.FuncLit
+		switch e := v.(type) {
+		case *ast.FuncLit:
+			lits = []*ast.FuncLit{e}
+		case *ast.Ident:
+			lits = localLits[info.Uses[e]]
+		}
+		for _, lit := range lits {
+			p := byLit[lit]
+			if p == nil {
+				p = &funcInfo{name: fmt.Sprintf("%s$lit%d", fi.name, len(byLit)+1), file: fi.file, pkg: fi.pkg, encl: fi, lit: lit,
+					decl:    &ast.FuncDecl{Name: ast.NewIdent("lit"), Type: lit.Type, Body: lit.Body},
+					callees: map[*types.Func]bool{}, onceCallees: map[*types.Func]bool{}, ifaceCalls: map[string]int{}, varInits: map[*funcInfo]bool{},
+					recvCallees: map[*types.Func]bool{}, fieldCalls: map[fieldKey]bool{}}
+				byLit[lit] = p
+				out = append(out, p)
+			}
+			k := fieldKey{tn, field}
+			dup := false
+			for _, q := range litsByField[k] {
+				if q == p {
+					dup = true
+				}
+			}
+			if !dup {
+				litsByField[k] = append(litsByField[k], p)
+			}
+		}
+	}
+	ast.Inspect(body, func(n ast.Node) bool {
+		switch x := n.(type) {
+		case *ast.CompositeLit:
+			tv, ok := info.Types[x]
+			if !ok {
+				return true
+			}
+			nt := namedOf(tv.Type)
+			if nt == nil {
+				return true
+			}
+			st, ok := nt.Underlying().(*types.Struct)
+			if !ok {
+				return true
+			}
+			for i, el := range x.Elts {
+				if kv, ok := el.(*ast.KeyValueExpr); ok {
+					if k, ok := kv.Key.(*ast.Ident); ok {
+						store(nt.Origin().Obj(), k.Name, kv.Value)
+					}
+				} else if i < st.NumFields() {
+					store(nt.Origin().Obj(), st.Field(i).Name(), el)
+				}
+			}
+		case *ast.AssignStmt:
+			if len(x.Lhs) == len(x.Rhs) {
+				for i, l := range x.Lhs {
+					if se, ok := l.(*ast.SelectorExpr); ok {
+						if sel, ok := info.Selections[se]; ok && sel.Kind() == types.FieldVal {
+							if nt := namedOf(sel.Recv()); nt != nil {
+								store(nt.Origin().Obj(), se.Sel.Name, x.Rhs[i])
+							}
+						}
+					}
+				}
+			}
+		}
+		return true
+	})
+	return out
 }
 
 func main() {
@@ -790,7 +1164,7 @@ func main() {
 				}
 				fi := &funcInfo{obj: obj, name: funcName(obj), file: fname, decl: fd, pkg: p,
 					callees: map[*types.Func]bool{}, onceCallees: map[*types.Func]bool{}, ifaceCalls: map[string]int{}, varInits: map[*funcInfo]bool{},
-					recvCallees: map[*types.Func]bool{}}
+					recvCallees: map[*types.Func]bool{}, fieldCalls: map[fieldKey]bool{}}
 				funcs[obj] = fi
 				if fd.Recv != nil {
 					byName[obj.Name()] = append(byName[obj.Name()], fi)
@@ -826,7 +1200,7 @@ func main() {
 								fi := &funcInfo{name: fmt.Sprintf("%s$init%d", locName(v), k), file: fname, pkg: p,
 									decl:    &ast.FuncDecl{Name: ast.NewIdent("init"), Type: lit.Type, Body: lit.Body},
 									callees: map[*types.Func]bool{}, onceCallees: map[*types.Func]bool{}, ifaceCalls: map[string]int{}, varInits: map[*funcInfo]bool{},
-									recvCallees: map[*types.Func]bool{}}
+									recvCallees: map[*types.Func]bool{}, fieldCalls: map[fieldKey]bool{}}
 								varInit[v] = append(varInit[v], fi)
 								pseudo = append(pseudo, fi)
 								return false
@@ -845,6 +1219,17 @@ func main() {
 	}
 	order = append(order, pseudo...)
 	sort.Slice(order, func(i, j int) bool { return order[i].name < order[j].name })
+	// function literals stored in function-typed struct fields
+	{
+		var stored []*funcInfo
+		for _, fi := range order {
+			if fi.obj != nil {
+				stored = append(stored, collectStoredLiterals(fi)...)
+			}
+		}
+		order = append(order, stored...)
+		sort.SliceStable(order, func(i, j int) bool { return order[i].name < order[j].name })
+	}
 	// the receiver types of the root methods are the shared objects (the store)
 	for _, fi := range order {
 		if isRoot(fi) {
@@ -878,6 +1263,35 @@ func main() {
 		for _, fi := range order {
 			resetFunc(fi)
 			analyse(fi)
+		}
+	}
+	// struct types that only functions reachable from the roots construct: per-call objects
+	{
+		reach := map[*funcInfo]bool{}
+		for _, r := range order {
+			if isRoot(r) {
+				for fi := range reachable(r) {
+					reach[fi] = true
+				}
+			}
+		}
+		inside, outside := map[*types.TypeName]bool{}, map[*types.TypeName]bool{}
+		for _, fi := range order {
+			if fi.encl != nil {
+				continue // the body of a stored literal is also part of its enclosing function
+			}
+			for tn := range fi.constructs {
+				if reach[fi] {
+					inside[tn] = true
+				} else {
+					outside[tn] = true
+				}
+			}
+		}
+		for tn := range inside {
+			if !outside[tn] {
+				perCallOnly[tn] = true
+			}
 		}
 	}
 	// a method that calls a receiver-mutating method on its own receiver mutates its receiver
@@ -976,6 +1390,7 @@ func resetFunc(fi *funcInfo) {
 	fi.ifaceCalls = map[string]int{}
 	fi.varInits = map[*funcInfo]bool{}
 	fi.recvCallees = map[*types.Func]bool{}
+	fi.fieldCalls = map[fieldKey]bool{}
 }
 
 // reachable: every function the call graph (same edges as closure) reaches from root
@@ -1002,6 +1417,9 @@ func reachable(root *funcInfo) map[*funcInfo]bool {
 		for lit := range fi.varInits {
 			work = append(work, lit)
 		}
+		for k := range fi.fieldCalls {
+			work = append(work, litsByField[k]...)
+		}
 		for name, arity := range fi.ifaceCalls {
 			for _, c := range byName[name] {
 				if c.obj.Type().(*types.Signature).Params().Len() == arity {
@@ -1027,8 +1445,36 @@ func isRoot(fi *funcInfo) bool {
 		return true
 	case fi.pkg.Name == "boltz" && fi.file == "store_query.go" && recv != nil && isReaderName(fi.obj.Name()):
 		return true
+	case fi.pkg.Name == "boltz" && recv != nil && registeredObjectFiles[fi.file] && isLookupName(fi.obj.Name()) && firstParamIsTx(fi.obj):
+		// indexes, link collections, symbols: created at configuration time, read by every read transaction
+		return true
 	}
 	return false
+}
+
+var registeredObjectFiles = map[string]bool{"indexes.go": true, "link_collection.go": true, "link_collection_rc.go": true,
+	"query_symbols.go": true, "external_symbol.go": true, "store_crud.go": true}
+
+func isLookupName(n string) bool {
+	for _, p := range []string{"Read", "Open", "Get", "Is", "Iterate", "Eval", "Find", "Load"} {
+		if strings.HasPrefix(n, p) {
+			return true
+		}
+	}
+	return false
+}
+
+func firstParamIsTx(f *types.Func) bool {
+	ps := f.Type().(*types.Signature).Params()
+	if ps.Len() == 0 {
+		return false
+	}
+	p, ok := ps.At(0).Type().(*types.Pointer)
+	if !ok {
+		return false
+	}
+	n, ok := p.Elem().(*types.Named)
+	return ok && n.Obj().Name() == "Tx" && n.Obj().Pkg() != nil && strings.HasSuffix(n.Obj().Pkg().Path(), "bbolt")
 }
 
 func isReaderName(n string) bool {
@@ -1087,6 +1533,11 @@ func closure(root *funcInfo) []access {
 		for lit := range it.fi.varInits {
 			work = append(work, item{lit, it.once})
 		}
+		for k := range it.fi.fieldCalls {
+			for _, lit := range litsByField[k] {
+				work = append(work, item{lit, it.once})
+			}
+		}
 		for name, arity := range it.fi.ifaceCalls {
 			for _, c := range byName[name] {
 				if c.obj.Type().(*types.Signature).Params().Len() == arity {
@@ -1098,6 +1549,11 @@ func closure(root *funcInfo) []access {
 	set := map[string]access{}
 	for fi, st := range seen {
 		for _, a := range fi.accesses {
+			if a.encl != nil {
+				if _, created := seen[a.encl]; created {
+					continue // the helper itself creates the literal: its variables are per call
+				}
+			}
 			if !st.plain {
 				a.sync = true
 			}
